@@ -42,8 +42,9 @@ def insertFile (p : Bytes × Option Nat) : List (Bytes × Option Nat) → List (
 def instantiate (name : Bytes) (v : Version) : Version :=
   { v with decls := v.decls.map (fun d =>
       { d with source := name ++ [58] ++ d.source,
-               -- codegen allocates the datum of a scalar counter at compile time
-               lvs := if d.keys.isEmpty ∧ d.kind = 1 then [⟨[], 0, 0⟩] else [] }) }
+               -- codegen allocates the datum of a scalar counter and of a histogram without keys at
+               -- compile time
+               lvs := if d.keys.isEmpty ∧ (d.kind = 1 ∨ d.kind = 5) then [⟨[], 0, 0⟩] else [] }) }
 
 def listing (cat : List (Nat × Version)) (files : List (Bytes × Option Nat)) : List Entry :=
   files.filterMap (fun f => match f.2 with
@@ -92,7 +93,8 @@ def lseenName : Bytes := str "lseen"
 def showStore (s : Store) : String :=
   let ms := s.flatMap (·.2)
   let lines := ms.map (fun m =>
-    let lvs := ",".intercalate (m.lvs.map (fun l => s!"{showTuple l.labels}={l.value}/x{l.expiry}"))
+    -- a histogram's datum is not a number: the harness prints `?` for it
+    let lvs := ",".intercalate (m.lvs.map (fun l => s!"{showTuple l.labels}={if m.typ = 3 then "?" else toString l.value}/x{l.expiry}"))
     s!"{Hex.encode m.name}/{Hex.encode m.prog}/{m.kind}/{m.typ}/{showTuple m.keys}/{Hex.encode m.source}" ++ "{" ++ lvs ++ "}")
   " ".intercalate (sortStr lines)
 
